@@ -137,8 +137,10 @@ else:
             # success implies that the whole input was decoded: re-encoding reproduces it
             if base64.b64encode(got).rstrip(b"=") != s.rstrip(b"=") or (ref is not None and ref != got):
                 R.violation(key, {"input": show(s), "jaq_decoded": show(got), "strict_reference": show(ref) if ref is not None else "rejects", "what": "decoder accepted malformed input or decoded only part of it"})
-        elif ref is not None:
-            R.violation(key, {"input": show(s), "what": "valid base64 rejected", "reference": show(ref)})
+        elif ref is not None and base64.b64encode(ref).rstrip(b"=") == s.rstrip(b"="):
+            # only the canonical spelling must be accepted: a spelling whose unused trailing bits are not zero
+            # (which a lenient decoder maps to the same bytes) may be rejected
+            R.violation(key, {"input": show(s), "what": "canonical base64 rejected", "reference": show(ref)})
         key = f"urid: {show(s)}"
         ref = urllib.parse.unquote_to_bytes(s)
         R.case(key, b"%" in s, "ok" if "ok" in uri else "err")
